@@ -17,7 +17,11 @@ Printer call sites (`NitroVerif.PrintMap`):
   (sites.resolvers (tsdoc …))                  → (ok op…)                                           every call, in order
   (sites.optype opts (doc …) (pos…))           → (ok op…)      the write_for calls with a non-builtin position, in order
   (sites.opjs opts (doc …))                    → (ok op…)      the same for the JavaScript module
+  (sites.optype.full fopts (tsdoc …) (doc …) (pos…) docFile) → (ok op…) | (err "types"|"runtime")   EVERY call of the type printer
+  (sites.opjs.full fopts (doc …) docFile)      → (ok op…) | (err "runtime")                          EVERY call of the JS printer
        op   ::= (w "text") | (wf "text" pos "name"|(noname)) | (in) | (de)
+       fopts ::= (fopts opts BOOL(defaultExport) BOOL(namedExport) BOOL(exportInput) BOOL(exportResult) "ns" "schemaSource"
+                        "typedDocumentNodeSource" BOOL(optionalInput))
        cfg  ::= (cfg (scalars SC…) (optional BOOL) (runtime BOOL))
        SC   ::= (single "N" "t") | (sendrecv "N" "send" "receive") | (separate "N" "ro" "ri" "oo" "oi")
        opts ::= (opts BOOL(capitalize) "query" "mutation" "subscription" "fragmentVariable" "result" "variables" "fragmentType" BOOL(printValues))
@@ -154,6 +158,17 @@ def decOpts : Sexp → Option OpOpts
            printValues := ← Gql.Dec.bool? pv }
   | _ => none
 
+def decFullOpts : Sexp → Option FullOpts
+  | .list [.atom "fopts", o, de, ne, ei, er, .str ns, .str ss, .str tdn, oi] => do
+    some { names := ← decOpts o, defaultExport := ← Gql.Dec.bool? de, namedExport := ← Gql.Dec.bool? ne,
+           exportInput := ← Gql.Dec.bool? ei, exportResult := ← Gql.Dec.bool? er, ns, schemaSource := ss,
+           typedDocumentNodeSource := tdn, optionalInput := ← Gql.Dec.bool? oi }
+  | _ => none
+
+def encErr : OpErr → Sexp
+  | .types _ => .list [.atom "err", .str "types"]
+  | .runtime _ => .list [.atom "err", .str "runtime"]
+
 def encOp : POp → Sexp
   | .write t => .list [.atom "w", .str t]
   | .writeFor t p (some n) => .list [.atom "wf", .str t, Gql.Enc.pos p, .str n]
@@ -176,6 +191,20 @@ def handle? : Sexp → Option Sexp
   | .list [.atom "sites.optype", o, d, .list ps] =>
     match decOpts o, Gql.Dec.doc d, ps.mapM Gql.Dec.pos with
     | some o, some d, some ps => some (Sexp.ok ((opTypeSites o d ps).map encOp))
+    | _, _, _ => some (.list [.atom "bad-request"])
+  | .list [.atom "sites.optype.full", o, t, d, .list ps, f] =>
+    match decFullOpts o, Gql.Dec.tsDoc t, Gql.Dec.doc d, ps.mapM Gql.Dec.pos, f.nat? with
+    | some o, some t, some d, some ps, some f =>
+      match opTypeOps o ⟨t⟩ d f ps with
+      | .ok ops => some (Sexp.ok (ops.map encOp))
+      | .error e => some (encErr e)
+    | _, _, _, _, _ => some (.list [.atom "bad-request"])
+  | .list [.atom "sites.opjs.full", o, d, f] =>
+    match decFullOpts o, Gql.Dec.doc d, f.nat? with
+    | some o, some d, some f =>
+      match opJsOps o d f with
+      | .ok ops => some (Sexp.ok (ops.map encOp))
+      | .error e => some (encErr e)
     | _, _, _ => some (.list [.atom "bad-request"])
   | .list [.atom "sites.opjs", o, d] =>
     match decOpts o, Gql.Dec.doc d with
